@@ -52,7 +52,7 @@ func runInject(c Case) *ev.Verdict {
 		return v
 	}
 	if d := obs.Diff(want, got); len(d) > 0 {
-		v.Fail("C16/fold-of-notifications:"+obs.DiffClass(d)+"+concurrent-flush", "Flush(%v) with %s started by a second actor at the flush's notification %d (it waited for a lock: %v): folding the post-change notifications does not give the RIB contents (want = RIB, got = consumer): %s", c.Inject.Flush, c.Inject.Op, c.Inject.At, res.Parked, strings.Join(d, "; "))
+		v.Fail("C16/fold-of-notifications:"+obs.DiffClass(d)+"+concurrent-flush", "Flush(%v) with %s started by a second actor at the flush's notification %d (it waited for a lock: %v): folding the post-change notifications does not give the RIB contents (want = RIB, got = consumer): %s", c.Inject.Flush, injectedWhat(c.Inject), c.Inject.At, res.Parked, strings.Join(d, "; "))
 	}
 	v.NonTrivial = res.Injected && len(res.Pre) > 0
 	return v
@@ -101,5 +101,15 @@ func drawInject(rt *rapid.T) Case {
 	} else {
 		in.Op = hgen.DrawOp(rt, belief, cfg, 900000)
 	}
+	if rapid.IntRange(0, 5).Draw(rt, "add-instance?") == 0 {
+		in.AddNI = "VRF-NEW" // the second actor creates a network instance instead
+	}
 	return Case{Config: "inject", H: h, Inject: in}
+}
+
+func injectedWhat(in *inject.Spec) string {
+	if in.AddNI != "" {
+		return "AddNetworkInstance(" + in.AddNI + ")"
+	}
+	return in.Op.String()
 }
